@@ -21,7 +21,23 @@ void Runner<A>::racePhase() {
     const int T = (int)plan.tasks.size();
     if (T < 1 || T > 8) return;
     curOp = "race";
+    // The readers must meet the shared object COLD: a lazily filled cache inside a const method is only racy while it is
+    // empty, and any observer call on the same object beforehand (baseline, sweep) would warm it. So: one last pair of
+    // mutating calls that changes nothing (add + remove of an absent pair), no observer on the shared object afterwards,
+    // and the single-threaded baseline is computed on a copy taken after that.
+    if (m.n > 0) {
+        bool touched = false;
+        for (unsigned i = 0; i < m.n && !touched; ++i)
+            for (unsigned j = 0; j < m.n && !touched; ++j)
+                if (!m.has(i, j) && !m.has(j, i)) {
+                    if constexpr (kind == WEIGHTED) g->addEdge(i, j, 1.0); else g->addEdge(i, j);
+                    g->removeEdge(i, j);
+                    touched = true;
+                }
+        if (touched) res.probes.inc("race_on_cold_object");
+    }
     const G &shared = *g;
+    std::unique_ptr<G> baseline(new G(*g));
     const Model &mo = m;
     auto runTask = [&](int t, bool threaded, sim::RunResult &tres) {
         std::vector<uint64_t> out;
@@ -32,14 +48,14 @@ void Runner<A>::racePhase() {
         const std::string tag = "t" + std::to_string(t);
         for (auto &op : plan.tasks[(size_t)t]) {
             if (threaded) bgs_yield(t); // operation boundary
-            out.push_back(tr.constOp(shared, mo, op, tag));
+            out.push_back(tr.constOp(threaded ? shared : *baseline, mo, op, tag));
         }
         return out;
     };
     // single-threaded baseline
     std::vector<std::vector<uint64_t>> expected((size_t)T), got((size_t)T);
     std::vector<sim::RunResult> tres((size_t)T), sres((size_t)T);
-    const uint64_t before = sweepDigest(shared, mo);
+    const uint64_t before = sweepDigest(*baseline, mo);
     for (int t = 0; t < T; ++t) expected[(size_t)t] = runTask(t, false, sres[(size_t)t]);
     // concurrent phase
     bgs_init(T, plan.sched.empty() ? nullptr : plan.sched.data(), (int)plan.sched.size());
